@@ -298,6 +298,9 @@ class SymStr:
         return iter([SymStr([ch]) for ch in self.c])
 
     def __hash__(self):
+        if all(isinstance(ch, int) for ch in self.c):
+            # fully concrete: behaves like the str it spells
+            return hash(''.join(chr(ch) for ch in self.c))
         # a harness may allow symbolic dict keys when it guarantees that no
         # two keys of one dict can be equal (identity then decides lookups)
         if getattr(core.ENG, 'allow_symkey_hash', False):
